@@ -136,7 +136,7 @@ func vPBlocksRec(blocks []vBlock, origin int64) []any {
 
 // vPFill drives a cache into a non-trivial state.
 func vPFill(size int, salt int64) *Store[int, int] {
-	rnd := vRand(salt)
+	rnd := vRand(salt*31 + 7) // (not the caller's sequence)
 	s := NewStore[int, int](&StoreOptions[int, int]{MaxSize: int64(size)})
 	ttls := []time.Duration{0, 0, 400 * time.Millisecond, 3 * time.Second, 90 * time.Second, 2 * time.Hour, 50 * time.Hour}
 	n := size + rnd.Intn(2*size+1)
@@ -213,6 +213,10 @@ func vPLoad(stream []byte, version uint64, size int) (rec vRec, kind string, s2 
 func vPersistRun(tr *vTrace, id string, salt int64, bytesN int) {
 	rnd := vRand(salt)
 	size := 3 + rnd.Intn(12)
+	if rnd.Intn(6) == 0 {
+		// large enough for the sketch table to be re-allocated while the cache fills (entries saved with frequency 0)
+		size = 66 + rnd.Intn(70)
+	}
 	s := vPFill(size, salt)
 	defer s.Close()
 	// elapsed time between save and load: move the clock origin of the saved cache back
@@ -266,7 +270,7 @@ func vPersistRun(tr *vTrace, id string, salt int64, bytesN int) {
 		// what the loaded cache serves right away (before its first tick): key/value pairs of the hits
 		served := [][]int{}
 		if fault == "none" && kind == "none" {
-			for k := 0; k <= 80; k++ {
+			for k := 0; k <= 300; k++ {
 				if v, ok := s2.Get(k); ok {
 					served = append(served, []int{k, v})
 				}
